@@ -230,7 +230,7 @@ def fused_name_hash(ctx):
     f = ctx.model.module("dask/optimization.py").func("default_fused_keys_renamer._enforce_max_key_limit")
     hs = find("name_hash = f'{hash(key_name):x}'[:4]", f)
     cut = find("key_name = f'{key_name[:max_fused_key_length]}-{name_hash}'", f)
-    rebinds = [a for a in walk_no_nested(f) if isinstance(a, ast.Assign) and unparse(a.targets[0]) == "key_name"]
+    rebinds = [a for a in walk_no_nested(f) if isinstance(a, ast.Assign) and eqv(a.targets[0], "key_name")]
     ok = len(hs) == 1 and len(cut) == 1 and len(rebinds) == 1 and dominates(f, hs[0][0], cut[0][0])
     ctx.ob("INJ.fused-name", f, "the 4-hex suffix is the hash of the untruncated name, appended to the truncated name", ok, "" if ok else "the hash is taken after truncation: chains through the same long-named stages get one key and overwrite each other (results of different inputs are swapped)")
 
